@@ -206,7 +206,8 @@ def faults(name, data, kind, tier, rng):
         for j in range(p, min(n, p + ln)):
             b[j] = rng.randrange(256)
         yield ("multi@%s" % cls(p, n), bytes(b), name)
-    for ln in ([0, 1, 5, 6, 100, 5000] if tier == "quick" else [0, 1, 2, 5, 6, 7, 63, 64, 65, 100, 383, 384, 385, 4096, 70000]):
+    # (8096 and 65536: the sizes at which block-zero analysis and the block reader change their ways)
+    for ln in ([0, 1, 5, 6, 100, 5000, 8095, 8096, 8097] if tier == "quick" else [0, 1, 2, 5, 6, 7, 63, 64, 65, 100, 383, 384, 385, 4096, 8095, 8096, 8097, 65535, 65536, 65537, 70000]):
         yield ("random%d" % ln, bytes(rng.randrange(256) for _ in range(ln)), name)
         yield ("zeros%d" % ln, b"\0" * ln, name)
 
